@@ -32,6 +32,12 @@
 (* in - converted out - burned tally = supply), the fee-amount table for   *)
 (* symbol lengths 3..8 (st.feeq, so a change of the float formula shows as *)
 (* drift), and the genesis operators ExportG / ValidateG / ImportG.        *)
+(*                                                                         *)
+(* Negative probing: types/validation.go is transcribed character by       *)
+(* character, so the step function is defined for ANY name, amount and     *)
+(* receiver; with "Probe" in Acts the actions also draw inputs of the wrong *)
+(* kind, and the generator mode GenNextP ends every behaviour with events  *)
+(* the specification rejects (GEN_Token_probe.cfg).                        *)
 (***************************************************************************)
 EXTENDS Integers, Sequences, FiniteSets, TLC, Util, Json, IOUtils, TokenMath, CapClauses
 
@@ -76,11 +82,39 @@ HasMinUnit(s, mu) == mu \in DOMAIN s.byMinUnit
 NoContract == ""
 (* the ERC20 contract bound to the token whose coin is mu (getTokenByMinUnit);
    the native token's binding is st.native *)
-(* types/validation.go ValidateMinUnit (ValidateBasic of Issue, Mint, Burn,
-   SwapFeeToken): lower-case alphanumerics only, no reserved prefix — an IBC
-   denom ("ibc/...") is refused, so the token DeployERC20 creates for one can be
-   converted but never minted, burned or fee-swapped through this module *)
-BadMinUnit(mu) == mu \in IBCDenoms
+(* types/validation.go, transcribed character by character (TLC evaluates Len,
+   SubSeq and \o on strings):
+     ValidateSymbol / ValidateMinUnit  ^[a-z][a-z0-9]{2,63}$ and no reserved
+       prefix (peg, ibc, tibc, lpt, htlt) — ValidateBasic of Issue (both names),
+       Edit / TransferOwner (symbol), Mint / Burn / SwapFeeToken (coin denom);
+       an IBC denom ("ibc/...") is refused, so the token DeployERC20 creates for
+       one can be converted but never minted, burned or fee-swapped here;
+     ValidateERC20 (MsgDeployERC20, symbol and min unit)  ^[a-z][a-zA-Z0-9/]{2,100}$;
+     sdk.Coin.IsValid (SwapToERC20 / SwapFromERC20)  [a-zA-Z][a-zA-Z0-9/:._-]{2,127}.
+   Names are case sensitive everywhere: "AAA" is no spelling of "aaa". *)
+LowerC == {"a", "b", "c", "d", "e", "f", "g", "h", "i", "j", "k", "l", "m",
+           "n", "o", "p", "q", "r", "s", "t", "u", "v", "w", "x", "y", "z"}
+UpperC == {"A", "B", "C", "D", "E", "F", "G", "H", "I", "J", "K", "L", "M",
+           "N", "O", "P", "Q", "R", "S", "T", "U", "V", "W", "X", "Y", "Z"}
+DigitC == {"0", "1", "2", "3", "4", "5", "6", "7", "8", "9"}
+CharAt(x, i) == SubSeq(x, i, i)
+HasPrefix(x, p) == Len(x) >= Len(p) /\ SubSeq(x, 1, Len(p)) = p
+ReservedPrefixes == {"peg", "ibc", "tibc", "lpt", "htlt"}
+Keyword(x) == \E p \in ReservedPrefixes : HasPrefix(x, p)
+NameShape(x, lo, hi, first, rest) ==
+  /\ Len(x) >= lo /\ Len(x) <= hi
+  /\ CharAt(x, 1) \in first
+  /\ \A i \in 2..Len(x) : CharAt(x, i) \in rest
+ValidSymbol(x) == NameShape(x, 3, 64, LowerC, LowerC \cup DigitC) /\ ~Keyword(x)
+ValidMinUnit(x) == ValidSymbol(x)            \* (same pattern, same reserved prefixes)
+ValidERC20(x) == NameShape(x, 3, 101, LowerC, LowerC \cup UpperC \cup DigitC \cup {"/"})
+SdkDenom(x) == NameShape(x, 3, 128, LowerC \cup UpperC,
+                         LowerC \cup UpperC \cup DigitC \cup {"/", ":", ".", "_", "-"})
+BadMinUnit(mu) == ~ValidMinUnit(mu)
+(* an address field that is neither empty nor the address of an account of the
+   universe: the drivers send the name itself, which is no bech32 address
+   (ValidateBasic) *)
+BadAddr(s, a) == a # "" /\ a \notin DOMAIN s.bal
 HasTok(s, mu) == HasMinUnit(s, mu) \/ mu = STAKE
 ContractOf(s, mu) == IF mu = STAKE THEN s.native
                      ELSE IF HasMinUnit(s, mu) THEN TokOf(s, mu).contract ELSE NoContract
@@ -123,7 +157,7 @@ MAXU == 20000000      \* stand-in for MaxUint64 (max supply 0 + mintable; never 
 (* msg_server.go IssueToken; keeper.go IssueToken; token.go AddToken *)
 DoIssue(s, who, sym, mu, scale, initial, max, mintable, fee) ==
   LET max2 == IF max = 0 THEN (IF mintable THEN MAXU ELSE initial) ELSE max IN
-  IF max2 < initial \/ scale > 18 \/ BadMinUnit(mu) \/ BadMinUnit(sym)   \* (ValidateSymbol: same shape)
+  IF max2 < initial \/ scale > 18 \/ BadMinUnit(mu) \/ ~ValidSymbol(sym)
   THEN FailW(s, "validate_basic")
   ELSE LET f == DeductFee(s, who, fee) IN
   IF ~f.ok THEN FailW(s, "fee_unpaid")
@@ -143,7 +177,8 @@ DoIssue(s, who, sym, mu, scale, initial, max, mintable, fee) ==
    converted to main units by integer division, so a fractional part slipped
    under the new maximum). *)
 DoEdit(s, who, sym, max, mintable) ==
-  IF sym \notin DOMAIN s.tok THEN FailW(s, "no_token")
+  IF ~ValidSymbol(sym) THEN FailW(s, "validate_basic")
+  ELSE IF sym \notin DOMAIN s.tok THEN FailW(s, "no_token")
   ELSE LET t == s.tok[sym] IN
   IF who # t.owner THEN FailW(s, "not_owner")
   ELSE
@@ -155,7 +190,7 @@ DoEdit(s, who, sym, max, mintable) ==
 
 (* msg_server.go TransferTokenOwner; keeper.go TransferTokenOwner *)
 DoTransferOwner(s, who, sym, to) ==
-  IF to = "" \/ who = to THEN FailW(s, "validate_basic")
+  IF to = "" \/ who = to \/ BadAddr(s, to) \/ ~ValidSymbol(sym) THEN FailW(s, "validate_basic")
   ELSE IF Blocked(to) THEN FailW(s, "blocked")
   ELSE IF sym \notin DOMAIN s.tok THEN FailW(s, "no_token")
   ELSE IF who # s.tok[sym].owner THEN FailW(s, "not_owner")
@@ -164,7 +199,7 @@ DoTransferOwner(s, who, sym, to) ==
 (* msg_server.go MintToken; keeper.go MintToken *)
 DoMint(s, who, mu, amt, to, fee) ==
   LET rcpt == IF to = "" THEN who ELSE to IN
-  IF amt <= 0 \/ BadMinUnit(mu) THEN FailW(s, "validate_basic")
+  IF amt <= 0 \/ BadMinUnit(mu) \/ BadAddr(s, to) THEN FailW(s, "validate_basic")
   ELSE IF Blocked(rcpt) THEN FailW(s, "blocked")
   ELSE IF ~HasMinUnit(s, mu) THEN FailW(s, "no_token")   \* (the native token: not its owner)
   ELSE LET f == DeductFee(s, who, fee) IN
@@ -190,7 +225,7 @@ DoBurn(s, who, mu, amt) ==
 (* msg_server.go SwapFeeToken; keeper.go SwapFeeToken, calcFeeTokenMinted.
    burn first, then mint; a negative burn panics in sdk.NewCoin (recovered). *)
 DoSwapFee(s, who, mu, amt, to) ==
-  IF amt <= 0 \/ BadMinUnit(mu) THEN FailW(s, "validate_basic")
+  IF amt <= 0 \/ BadMinUnit(mu) \/ BadAddr(s, to) THEN FailW(s, "validate_basic")
   ELSE IF to # "" /\ Blocked(to) THEN FailW(s, "blocked")
   ELSE IF ~(HasMinUnit(s, mu) \/ mu = STAKE) THEN FailW(s, "no_token")
   ELSE IF mu \notin DOMAIN s.registry THEN FailW(s, "no_swap")
@@ -232,19 +267,23 @@ Deployable(s) == IF ~s.params.erc20 THEN "erc20_disabled"
                  ELSE IF ~s.params.beacon THEN "no_beacon" ELSE ""
 WithContract(s, c) == [s EXCEPT !.nonce = @ + 1, !.erc = Put(@, c, [a \in ErcAddrs(s) |-> 0])]
 
-DoDeploy(s, sym0, mu, scale) ==
+DoDeploy(s, sym0, mu, scale, quirk) ==
   LET sym == IF sym0 = "" THEN "zzz" ELSE sym0
       c == NewContract(s)
+      \* the harness EVM reverts the creation of a contract NAMED evrevert (the
+      \* message's name; result.Failed() in DeployERC20): nothing is bound
+      evm == IF Deployable(s) # "" THEN Deployable(s)
+             ELSE IF quirk = QREVERT THEN "evm_revert" ELSE ""
   IN
-  IF scale > 18 THEN FailW(s, "validate_basic")
+  IF scale > 18 \/ ~ValidERC20(mu) \/ ~ValidERC20(sym) THEN FailW(s, "validate_basic")
   ELSE IF mu = STAKE THEN
     IF s.native # NoContract THEN FailW(s, "already_deployed")
-    ELSE IF Deployable(s) # "" THEN FailW(s, Deployable(s))
+    ELSE IF evm # "" THEN FailW(s, evm)
     ELSE Done([WithContract(s, c) EXCEPT !.native = c])
   ELSE IF ~HasMinUnit(s, mu) THEN
     IF sym \in DOMAIN s.tok \/ sym = STAKE THEN FailW(s, "symbol_exists")
     ELSE IF mu \notin IBCDenoms THEN FailW(s, "no_token")
-    ELSE IF Deployable(s) # "" THEN FailW(s, Deployable(s))
+    ELSE IF evm # "" THEN FailW(s, evm)
     ELSE
       LET t == [minUnit |-> mu, scale |-> scale, max |-> 0, mintable |-> TRUE,
                 owner |-> TOK, initial |-> 0, contract |-> c]
@@ -253,14 +292,14 @@ DoDeploy(s, sym0, mu, scale) ==
   ELSE
     LET sy == s.byMinUnit[mu] IN
     IF s.tok[sy].contract # NoContract THEN FailW(s, "already_deployed")
-    ELSE IF Deployable(s) # "" THEN FailW(s, Deployable(s))
+    ELSE IF evm # "" THEN FailW(s, evm)
     ELSE Done([WithContract(s, c) EXCEPT !.tok[sy].contract = c])
 
 (* msg_server.go UpgradeERC20 (authority); erc20.go UpgradeERC20: the beacon's
    upgradeTo(implementation).  The harness EVM records the implementation and
    reverts for the quirk address. *)
 DoUpgrade(s, impl) ==
-  IF impl = "" THEN FailW(s, "validate_basic")
+  IF impl = "" \/ (impl \notin ErcAddrs(s) /\ impl # QREVERT) THEN FailW(s, "validate_basic")   \* (no hex address)
   ELSE IF ~s.params.erc20 THEN FailW(s, "erc20_disabled")
   ELSE IF ~s.params.beacon THEN FailW(s, "no_beacon")
   ELSE IF impl = QREVERT THEN FailW(s, "evm_revert")
@@ -268,7 +307,7 @@ DoUpgrade(s, impl) ==
 
 (* msg_server.go SwapToERC20; erc20.go SwapToERC20, MintERC20 *)
 DoToERC20(s, who, to, mu, amt) ==
-  IF amt <= 0 \/ to \notin ErcAddrs(s) THEN FailW(s, "validate_basic")
+  IF amt <= 0 \/ to \notin ErcAddrs(s) \/ ~SdkDenom(mu) THEN FailW(s, "validate_basic")
   ELSE IF ~s.params.erc20 THEN FailW(s, "erc20_disabled")
   ELSE IF to = QNOKEY THEN FailW(s, "unsupported_key")
   ELSE IF ~HasTok(s, mu) THEN FailW(s, "no_token")
@@ -284,7 +323,7 @@ DoToERC20(s, who, to, mu, amt) ==
 
 (* msg_server.go SwapFromERC20; erc20.go SwapFromERC20, BurnERC20 *)
 DoFromERC20(s, who, to, mu, amt) ==
-  IF amt <= 0 \/ to = "" THEN FailW(s, "validate_basic")
+  IF amt <= 0 \/ to = "" \/ BadAddr(s, to) \/ ~SdkDenom(mu) THEN FailW(s, "validate_basic")
   ELSE IF ~s.params.erc20 THEN FailW(s, "erc20_disabled")
   ELSE IF ~HasTok(s, mu) THEN FailW(s, "no_token")
   ELSE IF ContractOf(s, mu) = NoContract THEN FailW(s, "not_deployed")
@@ -310,6 +349,7 @@ DoHook(s, who, to, mu, amt) ==
     IF to = "" \/ who \notin ErcAddrs(s) THEN FailW(s, "evm_revert")
     ELSE IF s.erc[c][who] < amt THEN FailW(s, "evm_revert")
     ELSE IF ~s.params.erc20 THEN FailW(s, "erc20_disabled")
+    ELSE IF BadAddr(s, to) THEN FailW(s, "bad_log")     \* the event's receiver is no bech32 address
     ELSE IF amt <= 0 THEN FailW(s, "zero_amount")
     ELSE IF Blocked(to) THEN FailW(s, "blocked")
     ELSE Done([s EXCEPT !.erc[c][who] = @ - amt,
@@ -322,10 +362,12 @@ DoHook(s, who, to, mu, amt) ==
                    -> skipped (even while ERC20 is disabled);
      "topics2"     two topics -> skipped;   "otherevent"  unknown event id -> skipped;
      "badto"       bound contract, receiver not a bech32 address -> error;
-     "baddata"     bound contract, data does not unpack -> error.
-   For the last two an unbound min unit makes the harness use the foreign
+     "baddata"     bound contract, data does not unpack -> error;
+     "emptyto"     bound contract, empty receiver -> error;
+     "zeroamt"     bound contract, amount 0 -> error.
+   For the last four an unbound min unit makes the harness use the foreign
    address, so the log is skipped. *)
-HookVariantsAll == {"unbound", "topics2", "otherevent", "badto", "baddata"}
+HookVariantsAll == {"unbound", "topics2", "otherevent", "badto", "baddata", "emptyto", "zeroamt"}
 DoHookForged(s, variant, mu) ==
   IF variant \in {"unbound", "topics2", "otherevent"} THEN Done(s)
   ELSE IF ContractOf(s, mu) = NoContract THEN Done(s)
@@ -355,7 +397,7 @@ Apply(s, e) ==
     [] e.name = "Mint" -> DoMint(s, e.who, e.mu, e.amt, e.to, e.fee)
     [] e.name = "Burn" -> DoBurn(s, e.who, e.mu, e.amt)
     [] e.name = "SwapFee" -> DoSwapFee(s, e.who, e.mu, e.amt, e.to)
-    [] e.name = "Deploy" -> DoDeploy(s, e.sym, e.mu, e.scale)
+    [] e.name = "Deploy" -> DoDeploy(s, e.sym, e.mu, e.scale, e.to)
     [] e.name = "Upgrade" -> DoUpgrade(s, e.to)
     [] e.name = "ToERC20" -> DoToERC20(s, e.who, e.to, e.mu, e.amt)
     [] e.name = "FromERC20" -> DoFromERC20(s, e.who, e.to, e.mu, e.amt)
@@ -703,6 +745,13 @@ CONSTANTS Owners, Symbols, Scales, Initials, Maxes, Amounts, EditMaxes, EditMint
           InitIbc, DeployExtra, HookVariants, UpgradeTo
 
 Denoms == MinUnitsC \cup {STAKE}
+(* coins the genesis hands to every user: the IBC denoms and (driver cfg, when it
+   lists them among the tracked denoms) plain coins that are no token's and can
+   never be — the upper-case twin of a min unit, a coin shaped like a liquidity
+   share, a coin of the HTLC module's cross-chain kind (reserved prefix htlt; its
+   shape is otherwise a valid min unit) *)
+OddFunded == {"MAA", "lpt-1", "htltmaa"}
+FundedDenoms == IBCDenoms \cup OddFunded
 Accts == Users \cup {TOK, FEEP}
 
 Params0 == [taxNum |-> TaxNum, taxDen |-> TaxDen, mintNum |-> MintNum, mintDen |-> MintDen,
@@ -715,9 +764,9 @@ Init0 ==
   [tok |-> EmptyF, byMinUnit |-> EmptyF, burned |-> EmptyF,
    bal |-> [a \in Accts |-> [d \in Denoms |->
               IF a \in Users /\ d = STAKE THEN InitStake
-              ELSE IF a \in Users /\ d \in IBCDenoms THEN InitIbc ELSE 0]],
+              ELSE IF a \in Users /\ d \in FundedDenoms THEN InitIbc ELSE 0]],
    supply |-> [d \in Denoms |-> IF d = STAKE THEN Cardinality(Users) * InitStake
-                                 ELSE IF d \in IBCDenoms THEN Cardinality(Users) * InitIbc ELSE 0],
+                                 ELSE IF d \in FundedDenoms THEN Cardinality(Users) * InitIbc ELSE 0],
    params |-> Params0, erc |-> EmptyF, nonce |-> 0, registry |-> Registry0,
    native |-> NoContract, impl |-> "", feeq |-> FeeTable(BaseFee)]
 
@@ -765,60 +814,120 @@ On(a) == a \in Acts
    exhaustive configs (Sample = FALSE) enumerate. *)
 Pick(S) == IF Sample /\ S # {} THEN {RandomElement(S)} ELSE S
 
+(* NEGATIVE PROBING (Acts contains "Probe"; generator configs only).  Every
+   message may then also name an identifier of the wrong kind in every field that
+   takes one — the symbol of a token where its min unit is expected and the other
+   way round, spellings that differ only in case, prefixes and extensions of valid
+   names, reserved prefixes, names at and beyond the length limits, the fee denom,
+   an IBC denom, a plain coin that is no token's — amounts 0 and 1, and receivers
+   that are blocked, module accounts or no address at all.  The specification says
+   what the code does today for each (normally: a rejection without effect). *)
+RECURSIVE Rep(_, _)
+Rep(c, n) == IF n = 0 THEN "" ELSE c \o Rep(c, n - 1)
+Name64 == "q" \o Rep("a", 63)      \* longest valid symbol / min unit
+Name65 == "q" \o Rep("a", 64)
+OddNames == {"AAA", "Aaa", "aaA", "MAA", "mAA", "aa", "ma", "aaaa", "maaa", "ibc/x1", "lptaaa", "lpt-1",
+             "htltmaa", "pegaaa", "tibcmaa", "ibcmaa", STAKE, "nope", "", "9aa", "a-a", Name64, Name65}
+NOADDR == "notanaddr"
+Probing == On("Probe")
+ProbeOf(S) == IF Probing THEN Pick(S) ELSE {}
+\* while probing, every quantifier draws ONE sensible value and ONE odd one: each
+\* message type then has about the same (small) number of successors per step, so
+\* the uniformly drawn tail visits all of them
+PickP(S) == IF Probing THEN Pick(S) ELSE S
+SymPool == PickP(DOMAIN st.tok) \cup ProbeOf(DOMAIN st.byMinUnit \cup OddNames)
+MuPool == PickP(DOMAIN st.byMinUnit) \cup ProbeOf(DOMAIN st.tok \cup OddNames)
+AmtPool(S) == Pick(S) \cup ProbeOf({0, 1})
+ToPool(S) == Pick(S) \cup ProbeOf({TOK, FEEP, NOADDR, "", EXT})
+
 Issue ==
-  /\ On("Issue") /\ Cardinality(DOMAIN st.tok) < MaxTokens
-  /\ \E who \in Owners, sym \in Symbols, mu \in MinUnitsC, sc \in Pick(Scales),
+  /\ On("Issue") /\ (Cardinality(DOMAIN st.tok) < MaxTokens \/ Probing)
+  /\ \E who \in PickP(Owners), sym \in PickP(Symbols) \cup ProbeOf(DOMAIN st.byMinUnit \cup OddNames),
+        \* (a min unit outside the tracked denoms must be one the code refuses: the
+        \* balance sheet is a closed universe)
+        mu \in PickP(MinUnitsC) \cup ProbeOf({x \in DOMAIN st.tok \cup OddNames : x \in Denoms \/ ~ValidMinUnit(x)}), sc \in Pick(Scales \cup (IF Probing THEN {19} ELSE {})),
         ini \in Pick(Initials), mx \in Pick(Maxes), mt \in Pick({"true", "false"}) :
        /\ ~(mx = 0 /\ mt = "true")      \* MaxUint64 is not representable
        /\ Step([NoEv EXCEPT !.name = "Issue", !.who = who, !.sym = sym, !.mu = mu, !.scale = sc,
                          !.initial = ini, !.max = mx, !.mintable = mt, !.fee = IssueFee(st)])
+(* who acts: exhaustive configs enumerate the users; while probing, three draws
+   out of four take an actor for whom the message can succeed (the token's owner,
+   a holder of the coin), so that the body of a behaviour builds up state, and the
+   fourth takes anybody (former owners, strangers, the EVM quirk accounts) *)
+Biased(pref, S) ==
+  IF ~Probing \/ ~Sample THEN S
+  ELSE IF pref # {} /\ RandomElement(1..4) > 1 THEN Pick(pref) ELSE Pick(S)
+OwnerOfSym(y) == IF y \in DOMAIN st.tok THEN {st.tok[y].owner} \cap Users ELSE {}
+OwnerOfMu(m) == IF HasMinUnit(st, m) THEN {TokOf(st, m).owner} \cap Users ELSE {}
+Holders(m) == IF m \in Denoms THEN {a \in Users : st.bal[a][m] > 0} ELSE {}
+ErcHolders(m) == LET c == ContractOf(st, m) IN
+                 IF c # NoContract /\ c \in DOMAIN st.erc THEN {a \in ErcAddrs(st) : st.erc[c][a] > 0} ELSE {}
+\* amounts at the bounds the code compares with: what may still be minted (+1), a whole balance (+1)
+RoomOf(m) == IF HasMinUnit(st, m) THEN TokOf(st, m).max * Pow10(TokOf(st, m).scale) - st.supply[m] ELSE 0
+Near(v) == IF Probing THEN Pick({x \in {v, v + 1} : x > 0 /\ x < 100000}) ELSE {}
+BalOf(a, m) == IF m \in Denoms /\ a \in DOMAIN st.bal THEN st.bal[a][m] ELSE 0
+ErcOf(a, m) == IF a \in ErcHolders(m) THEN st.erc[ContractOf(st, m)][a] ELSE 0
+
 Edit ==
   /\ On("Edit")
-  /\ \E who \in Users, sym \in DOMAIN st.tok, mx \in Pick(EditMaxes), mt \in Pick(EditMint) :
+  /\ \E sym \in SymPool : \E who \in Biased(OwnerOfSym(sym), Users) \cup ProbeOf(Users), mx \in Pick(EditMaxes), mt \in Pick(EditMint) :
        Step([NoEv EXCEPT !.name = "Edit", !.who = who, !.sym = sym, !.max = mx, !.mintable = mt])
 TransferOwner ==
   /\ On("TransferOwner")
-  /\ \E who \in Users, sym \in DOMAIN st.tok, to \in Pick(TransferTo) :
+  /\ \E sym \in SymPool : \E who \in Biased(OwnerOfSym(sym), Users) \cup ProbeOf(Users), to \in ToPool(TransferTo) :
        Step([NoEv EXCEPT !.name = "TransferOwner", !.who = who, !.sym = sym, !.to = to])
 Mint ==
   /\ On("Mint")
-  /\ \E who \in Users, mu \in DOMAIN st.byMinUnit, a \in Pick(Amounts), to \in Pick(MintTo) :
+  /\ \E mu \in MuPool : \E who \in Biased(OwnerOfMu(mu), Users), a \in AmtPool(Amounts) \cup Near(RoomOf(mu)),
+                            to \in ToPool(MintTo) :
        Step([NoEv EXCEPT !.name = "Mint", !.who = who, !.mu = mu, !.amt = a, !.to = to,
                          !.fee = MintFee(st)])
 Burn ==
   /\ On("Burn")
-  /\ \E who \in Users, mu \in DOMAIN st.byMinUnit, a \in Pick(Amounts) :
-       Step([NoEv EXCEPT !.name = "Burn", !.who = who, !.mu = mu, !.amt = a])
+  /\ \E mu \in MuPool : \E who \in Biased(Holders(mu), Users) \cup ProbeOf(Users) :
+       \E a \in AmtPool(Amounts) \cup Near(BalOf(who, mu)) :
+         Step([NoEv EXCEPT !.name = "Burn", !.who = who, !.mu = mu, !.amt = a])
 SwapFee ==
   /\ On("SwapFee")
-  /\ \E who \in Users, mu \in DOMAIN st.registry, a \in Pick(SwapAmounts), to \in Pick(ConvTo \cup {""}) :
-       Step([NoEv EXCEPT !.name = "SwapFee", !.who = who, !.mu = mu, !.amt = a, !.to = to])
+  /\ \E mu \in PickP(DOMAIN st.registry) \cup ProbeOf(DOMAIN st.byMinUnit \cup DOMAIN st.tok \cup OddNames) :
+       \E who \in Biased(Holders(mu), Users), a \in AmtPool(SwapAmounts), to \in ToPool(ConvTo \cup {""}) :
+         Step([NoEv EXCEPT !.name = "SwapFee", !.who = who, !.mu = mu, !.amt = a, !.to = to])
 Deploy ==
   /\ On("Deploy")
-  /\ \/ \E mu \in DOMAIN st.byMinUnit :
+  /\ \/ \E mu \in PickP(DOMAIN st.byMinUnit) :
           Step([NoEv EXCEPT !.name = "Deploy", !.mu = mu, !.sym = st.byMinUnit[mu],
                             !.scale = TokOf(st, mu).scale])
      \* the native token, an IBC denom without a token, a name without anything
      \/ \E mu \in DeployExtra \ DOMAIN st.byMinUnit, sy \in Pick({"ibx", "aaa"}) :
           Step([NoEv EXCEPT !.name = "Deploy", !.mu = mu, !.sym = sy, !.scale = 0])
+     \* probing: names of the wrong kind (ValidateERC20 admits capitals and slashes),
+     \* scale 19, an EVM that reverts the creation
+     \/ \E mu \in ProbeOf(DOMAIN st.byMinUnit \cup DOMAIN st.tok \cup OddNames \cup (IBCDenoms \cap MinUnitsC)),
+           sy \in ProbeOf(DOMAIN st.tok \cup OddNames \cup {"ibx", "iBX"}), sc \in ProbeOf({0, 19}),
+           q \in ProbeOf({"", QREVERT}) :
+          Step([NoEv EXCEPT !.name = "Deploy", !.mu = mu, !.sym = sy, !.scale = sc, !.to = q])
 Upgrade ==
   /\ On("Upgrade")
-  /\ \E to \in Pick(UpgradeTo) : Step([NoEv EXCEPT !.name = "Upgrade", !.to = to])
+  /\ \E to \in Pick(UpgradeTo) \cup ProbeOf({"", NOADDR}) : Step([NoEv EXCEPT !.name = "Upgrade", !.to = to])
 (* coins that can be converted: every token's, and the native one's once bound *)
-ConvMus == DOMAIN st.byMinUnit \cup (IF st.native # NoContract THEN {STAKE} ELSE {})
+ConvMus == PickP(DOMAIN st.byMinUnit \cup (IF st.native # NoContract THEN {STAKE} ELSE {}))
+           \cup ProbeOf(DOMAIN st.tok \cup OddNames)
 ToERC20 ==
   /\ On("ToERC20")
-  /\ \E who \in Users, to \in Pick(ErcAddrs(st)), mu \in ConvMus, a \in Pick(ConvAmounts) :
-       Step([NoEv EXCEPT !.name = "ToERC20", !.who = who, !.to = to, !.mu = mu, !.amt = a])
+  /\ \E mu \in ConvMus : \E who \in Biased(Holders(mu), Users), to \in ToPool(ErcAddrs(st)) :
+       \E a \in AmtPool(ConvAmounts) \cup Near(BalOf(who, mu)) :
+         Step([NoEv EXCEPT !.name = "ToERC20", !.who = who, !.to = to, !.mu = mu, !.amt = a])
 FromERC20 ==
   /\ On("FromERC20")
-  /\ \E who \in Users, to \in Pick(ConvTo), mu \in ConvMus, a \in Pick(ConvAmounts) :
-       Step([NoEv EXCEPT !.name = "FromERC20", !.who = who, !.to = to, !.mu = mu, !.amt = a])
+  /\ \E mu \in ConvMus : \E who \in Biased(ErcHolders(mu) \cap Users, Users), to \in ToPool(ConvTo) :
+       \E a \in AmtPool(ConvAmounts) \cup Near(ErcOf(who, mu)) :
+         Step([NoEv EXCEPT !.name = "FromERC20", !.who = who, !.to = to, !.mu = mu, !.amt = a])
 Hook ==
   /\ On("Hook")
-  /\ \/ \E who \in ErcAddrs(st), to \in Pick(ConvTo), mu \in ConvMus, a \in Pick(ConvAmounts) :
-          Step([NoEv EXCEPT !.name = "Hook", !.who = who, !.to = to, !.mu = mu, !.amt = a])
-     \/ \E v \in Pick(HookVariants), mu \in DOMAIN st.byMinUnit :
+  /\ \/ \E mu \in ConvMus : \E who \in Biased(ErcHolders(mu), ErcAddrs(st)), to \in ToPool(ConvTo) :
+          \E a \in AmtPool(ConvAmounts) \cup Near(ErcOf(who, mu)) :
+            Step([NoEv EXCEPT !.name = "Hook", !.who = who, !.to = to, !.mu = mu, !.amt = a])
+     \/ \E v \in Pick(HookVariants), mu \in PickP(DOMAIN st.byMinUnit) :
           Step([NoEv EXCEPT !.name = "Hook", !.sym = v, !.who = EXT, !.to = "u1", !.mu = mu, !.amt = 1])
 SetParams ==
   /\ On("SetParams")
@@ -838,6 +947,21 @@ Rejects(h) == Cardinality({i \in DOMAIN h : ~h[i].ok})
 GenNext == Next /\ (ev'.ok \/ Rejects(hist) < MaxRej)
 GenSpec == Init /\ [][GenNext]_vars
 GenDepth == atoi(IOEnv.GEN_DEPTH)
+(* Second generator mode (negative probing): like GenNext, but the last ProbeTail
+   events of every generated behaviour must be events this specification REJECTS
+   — every behaviour ends by probing the deep state its body has built with
+   operations that must fail.  A rejected event changes nothing, so all the probes
+   of one behaviour meet the same state; if the code wrongly accepts one, the
+   following probes and the driver's epilogue (computed from the chain's real
+   state) exercise the consequences, and the clauses judge them. *)
+ProbeTail == 4
+AdminEvs(h) == Cardinality({i \in DOMAIN h : h[i].name \in {"SetParams", "Upgrade"}})
+GenNextP == Next /\ (IF Len(hist) >= GenDepth - ProbeTail THEN ~ev'.ok
+                     \* the body builds state: events without effect are left out, rejections
+                     \* and parameter changes / upgrades (always possible) are kept rare
+                     ELSE /\ (st' # st \/ (~ev'.ok /\ Rejects(hist) < MaxRej))
+                          /\ (ev'.name \in {"SetParams", "Upgrade"} => AdminEvs(hist) < 2))
+GenSpecP == Init /\ [][GenNextP]_vars
 GenConstraint ==
   /\ Len(hist) <= GenDepth
   /\ (Len(hist) = GenDepth) => PrintT(<<"BEHAVIOUR", ToJson(hist)>>)
